@@ -82,11 +82,14 @@ TxDump == Len(hist) = MaxLen =>
             ndJsonSerialize("b_" \o ToString(TLCGet("stats").traces) \o ".ndjson", hist)
 
 -----------------------------------------------------------------------------
-(*  RbfGSpec: multi-round RBF histories on a non-taproot channel: optionally an injected split, then    *)
+(*  RbfGSpec: multi-round RBF histories on a channel of any type: optionally an injected split, then      *)
 (*            MaxRbf offers by either side, each at a fee of a small grid (bumps and drops) and with the *)
 (*            closer staying on or moving to one of 3 delivery scripts.                                  *)
 CONSTANT MaxRbf
-RbfTypes == {"legacy", "tweakless", "anchors", "zerofee"}
+\* all fixture types but the lease channel; on the taproot ones both machines run the MuSig2 nonce exchange
+\* (JIT closer nonce with closing_complete, next closee nonce with closing_sig)
+RbfTypes == {"legacy", "tweakless", "anchors", "zerofee", "taproot", "taprootfinal", "taprootroot"}
+PeerTypes == {"legacy", "tweakless", "anchors", "zerofee"}
 RbfGInit ==
   /\ \E t \in RbfTypes, o \in P, d \in DustPairs :
        /\ ch = FixtureChan(t, o, d)
@@ -96,7 +99,8 @@ RbfGInit ==
 RbfFeeGrid(c) ==
   LET n == Sat(ch.view[c].our) IN
   {f \in {700, 1000, 1001, 1500, 2600, 9000, n - 1, n, n + 1, n - OwnDust(c), n - (n \div 4)} : f >= 1}
-GRbf == /\ \E c \in P, s \in 0..2 : \E f \in RbfFeeGrid(c) :
+\* the fee is drawn at random from the grid (one successor per closer and script: same distribution, smaller fan-out)
+GRbf == /\ \E c \in P, s \in 0..2 : \E f \in {RandomElement(RbfFeeGrid(c))} :
              /\ RbfOffer(f, c, s) /\ Rec(Ev("RbfM", c, f, s))
         /\ UNCHANGED <<negVars, k, injected>>
 RbfGNext == /\ Len(hist) < MaxRbf + 2
@@ -104,6 +108,62 @@ RbfGNext == /\ Len(hist) < MaxRbf + 2
 RbfGSpec == RbfGInit /\ [][RbfGNext]_gvars
 RbfDump == Len(hist) = MaxRbf + 2 =>
              ndJsonSerialize("r_" \o ToString(TLCGet("stats").traces) \o ".ndjson", hist)
+
+-----------------------------------------------------------------------------
+(*  PeerGSpec: part III histories - one real node (either party, Environment.BlockHeight 0 or the current  *)
+(*            height) against the model-driven peer: optionally an injected split (small side around the    *)
+(*            channel AND the network dust limits), then MaxPeer steps of PeerOffer (fee, lock time, script  *)
+(*            drawn at random from small grids: one successor per action kind, so that offers and replies    *)
+(*            alternate), NodeReply, NodeOffer, PeerReply, NodeSig; up to two closing_completes in flight.   *)
+CONSTANT MaxPeer
+PeerSd == [p \in P |-> IF p = "A" THEN <<294, 330, 330>> ELSE <<330, 294, 330>>]
+PeerHt == 3
+PEv(a, p, x, y, lt, f, res, sel) == [a |-> a, p |-> p, x |-> x, y |-> y, lt |-> lt, f |-> f, res |-> res, sel |-> sel]
+PeerGInit ==
+  /\ \E t \in PeerTypes, o \in P, d \in DustPairs, n \in P, h \in {0, PeerHt} :
+       /\ ch = FixtureChan(t, o, d)
+       /\ rb = RbStart(n, h, PeerHt, PeerSd)
+       /\ hist = <<[a |-> "Cfg", p |-> o, x |-> d[1], y |-> d[2], type |-> t, node |-> n, envh |-> h, ht |-> PeerHt]>>
+  /\ tx = [p \in P |-> NoTx]
+  /\ ideal = [p \in P |-> 0] /\ maxfee = [p \in P |-> 0] /\ last = [p \in P |-> 0]
+  /\ prior = [p \in P |-> {}] /\ done = [p \in P |-> 0]
+  /\ msg = 0 /\ turn = "A" /\ rounds = 0 /\ err = ""
+  /\ k = 2 /\ injected \in BOOLEAN
+PSmalls == Smalls \cup {293, 294, 295, 329, 330, 331, 7000}
+GPInject == /\ \E side \in P, s \in PSmalls, r \in {0, 999} :
+                LET small == 1000 * s + r
+                    rest == Total - small IN
+                /\ ch' = [ch EXCEPT !.view = [p \in P |->
+                             [@[p] EXCEPT !.our = IF p = side THEN small ELSE rest,
+                                          !.their = IF p = side THEN rest ELSE small]]]
+                /\ Rec(Ev("Inject", side, small, 0))
+            /\ tx' = [p \in P |-> NoTx] /\ UNCHANGED <<negVars, k, injected>>
+PeerGFees(c) ==
+  LET n == Sat(ch.view[c].our)  g == Gross(c) IN
+  {f \in {700, 1000, 1001, 2600, n - 1, n, n + 1, g - OwnDust(c), g - OwnDust(c) + 1, n - 294, n - 330, g - 294, g - 330,
+          n - (n \div 4)} :
+     f >= 1 /\ f <= g}
+GPOffer ==
+  LET c == Other(rb.node)  cur == ch.scr[c][c] IN
+  /\ PeerGFees(c) # {}
+  /\ \E f \in {RandomElement(PeerGFees(c))}, lt \in {RandomElement({0, 1, rb.ht})}, s \in {RandomElement({cur, (cur + 1) % 3})} :
+       \E F \in HonestFields(c, f) :
+         /\ PeerOffer(f, lt, s, F, 2)
+         /\ Rec(PEv("POffer", c, f, s, lt, FieldOf(F), "", ""))
+GNReply == NodeReply /\ Rec(PEv("NReply", rb.node, 0, 0, 0, "", "", ""))
+GNOffer ==
+  /\ PeerGFees(rb.node) # {}
+  /\ \E f \in {RandomElement(PeerGFees(rb.node) \cup {Sat(ch.view[rb.node].our) + 1})} :
+       NodeOffer(f) /\ Rec(PEv("NOffer", rb.node, f, 0, 0, "", "", ""))
+\* the peer's answer is the model's: the executor is told which field the honest closee selects and whether it signs
+GPReply == PeerReply /\ Rec(PEv("PReply", Other(rb.node), 0, 0, 0, "", rb'.res, rb'.sel))
+GNSig == NodeSig /\ Rec(PEv("NSig", rb.node, 0, 0, 0, "", "", ""))
+PeerGNext == /\ Len(hist) < MaxPeer + 2
+             /\ IF injected /\ Len(hist) = 1 THEN GPInject
+                ELSE (GPOffer \/ GNReply \/ GNOffer \/ GPReply \/ GNSig) /\ UNCHANGED <<ideal, maxfee, last, prior, done, msg, turn, rounds, err, k, injected>>
+PeerGSpec == PeerGInit /\ [][PeerGNext]_gvars
+PeerDump == (Len(hist) = MaxPeer + 2 \/ rb.dead) =>
+              ndJsonSerialize("p_" \o ToString(TLCGet("stats").traces) \o ".ndjson", hist)
 
 -----------------------------------------------------------------------------
 Ideals == {x \in Lo..Hi : (x - Lo) % Step = 0}
@@ -128,7 +188,7 @@ NegGPick ==
        /\ ideal' = id /\ maxfee' = mf /\ turn' = o
        /\ hist' = <<[a |-> "NegCfg", p |-> o, tap |-> IF tap THEN 1 ELSE 0,
                      idealA |-> ia, idealB |-> ib, maxA |-> mf["A"], maxB |-> mf["B"]]>>
-  /\ UNCHANGED <<tx, last, prior, done, msg, rounds, err, k, injected>>
+  /\ UNCHANGED <<tx, last, prior, done, msg, rounds, err, rb, k, injected>>
 NegGNext == \/ NegGPick
             \/ /\ hist # <<>>
                /\ \/ Begin /\ Rec(Ev("Begin", ch.opener, 0, 0))
